@@ -134,6 +134,31 @@ pub fn main(args: &[String]) {
     let a = &sc["args"];
     let op = sc["op"].as_str().unwrap();
     let mut result: Vec<String> = vec![];
+    if op == "builder" {
+        // InstanceBuilder API: apply one method to a builder, then observe it through WeakDom::new
+        let mut b = build_builder(&a["builder"]);
+        let m = a["method"].as_str().unwrap();
+        let x = || build_builder(&a["x"]);
+        let y = || build_builder(&a["y"]);
+        let pv = |k: &str| variant(&a[k]);
+        match m {
+            "with_child" => b = b.with_child(x()),
+            "add_child" => b.add_child(x()),
+            "with_children" => b = b.with_children(vec![x(), y()]),
+            "add_children" => b.add_children(vec![x(), y()]),
+            "with_property" => b = b.with_property("NewProp", pv("val")),
+            "add_property" => b.add_property("NewProp", pv("val")),
+            "with_properties" => b = b.with_properties(vec![("NewProp", pv("val")), ("Value", pv("val2"))]),
+            "add_properties" => b.add_properties(vec![("NewProp", pv("val")), ("Value", pv("val2"))]),
+            "with_name" => b = b.with_name(a["name"].as_str().unwrap()),
+            "set_name" => b.set_name(a["name"].as_str().unwrap()),
+            "with_class" => b = b.with_class(a["name"].as_str().unwrap()),
+            "set_class" => b.set_class(a["name"].as_str().unwrap()),
+            "with_referent" => b = b.with_referent(r(&a["newref"])),
+            other => panic!("replayer: unknown builder method {}", other),
+        }
+        doms.push(WeakDom::new(b));
+    } else {
     match op {
         "destroy" => doms[0].destroy(r(&a["a"])),
         "transfer_within" => doms[0].transfer_within(r(&a["a"]), r(&a["b"])),
@@ -158,6 +183,7 @@ pub fn main(args: &[String]) {
             }
         }
         other => panic!("replayer: unknown op {}", other),
+    }
     }
     let empty = vec![];
     let probes = sc["probe_uids"].as_array().unwrap_or(&empty);
